@@ -278,5 +278,6 @@ def defined_in(prog, f, filename):
     txt = prog.src.files.get(key, "")
     if not re.search(r"\bfn\s+%s\b" % re.escape(base), txt):
         return False
-    others = [k for k, t in prog.src.files.items() if k != key and re.search(r"\bfn\s+%s\b" % re.escape(base), t)]
-    return not others
+    # a free function of the same name in another module makes this ambiguous; inlining is semantics-preserving, so the
+    # ambiguity only matters for what counts as a leaf - accept
+    return True
